@@ -190,6 +190,14 @@ def run_path(contract, func, loader, contracts_by_target, variant, prefix):
     except RecursionError:
         pr.status = "unsupported"
         pr.detail = "recursion limit"
+    except z3.Z3Exception as e:
+        pr.status = "unsupported"
+        pr.detail = f"z3 term construction failed ({e}); the contract does not fit the current code"
+    except (AttributeError, KeyError, TypeError, IndexError, ValueError, AssertionError) as e:
+        # the sidecar contract / invariant refers to locals or shapes the current source no longer has:
+        # that is "the contract no longer fits" (undecided -> bounded fall-back), never a verdict
+        pr.status = "unsupported"
+        pr.detail = f"contract does not fit the current code: {type(e).__name__}: {e}"
     pr.decisions = list(ctx.taken)
     pr.trace = list(ctx.trace)
     pr.pending = list(ctx.pending)
